@@ -358,6 +358,8 @@ class Fn:
                         e = e[2][nm]
                     elif e[0] == "tuple" and nm.isdigit() and int(nm) < len(e[1]):
                         e = e[1][int(nm)]
+                    elif e[0] == "closure" and len(e) > 2 and isinstance(e[2], dict) and nm in e[2]:
+                        e = e[2][nm]        # a captured variable of a closure value built in this body
                     else:
                         e = ("field", e, nm, el.get("of"))
                 elif "index" in el:
